@@ -575,6 +575,26 @@ def _flip_conf(kind):
         for r in rl.rules:
             if r.disable and not rule_list.is_rule_deprecated(r):
                 rules[r.unique_id] = {"disable": False}
+    elif kind.startswith("flipJ"):
+        # like flipI, but only about half of the options move (chosen by a hash of rule, option and variant), so that a changed option
+        # also meets the default value of its neighbours
+        import zlib
+
+        r_ = int(kind[5:])
+        o = vhdlFile_pkg.vhdlFile([""])
+        rl = rule_list.rule_list(o, base.severity_list)
+        for r in rl.rules:
+            if rule_list.is_rule_deprecated(r):
+                continue
+            dd = {}
+            for k in r.configuration:
+                v = getattr(r, k, None)
+                alts = [x for x in option_domain(r, k) if x != v]
+                h = zlib.crc32(("%s.%s.%d" % (r.unique_id, k, r_)).encode())
+                if alts and h % 2 == 0:
+                    dd[k] = alts[(h // 2) % len(alts)]
+            if dd:
+                rules[r.unique_id] = dd
     elif kind.startswith("flipI"):
         # option sweep: every string-valued option of every rule takes the r-th *other* value of its domain, the domain being read off the
         # rule's own source (string literals the option is compared with, in the modules of the rule's class hierarchy)
@@ -603,7 +623,7 @@ def _flip_conf(kind):
 
 
 def get_conf2(name):
-    if name in ("flipA", "flipB", "flipC", "flipD", "flipE", "flipF", "flipG", "flipH") or name.startswith("flipI"):
+    if name in ("flipA", "flipB", "flipC", "flipD", "flipE", "flipF", "flipG", "flipH") or name.startswith(("flipI", "flipJ")):
         if name not in _CONF:
             _CONF[name] = _flip_conf(name)
         return _CONF[name]
@@ -812,6 +832,7 @@ def code_lines(fixture):
     return out
 
 
+FLIPI = ["flipI0", "flipI1", "flipI2", "flipI3", "flipI4", "flipJ0", "flipJ1"]
 NSEEDS = 3  # the selection depends on VERIF_SEED % NSEEDS: every selection that can be drawn has been run and triaged on the pinned tree
 
 
@@ -830,9 +851,9 @@ def pick_params(prop, tier, seed):
     for k, f in enumerate(files):
         conf = "default"
         if tier == "thorough":
-            conf = ["default", "jcl", "flipA", "flipB", "flipC", "flipD", "flipE", "flipF", "flipG", "flipH"][(k + 3 * seed) % 10]  # three seeds see three different configurations per fixture
+            conf = (["default", "jcl", "flipA", "flipB", "flipC", "flipD", "flipE", "flipF", "flipG", "flipH"] + FLIPI)[(k + 3 * seed) % (10 + len(FLIPI))]  # three seeds see three different configurations per fixture
         elif k % 3 == 2:
-            conf = ["jcl", "flipA", "flipB", "flipC", "flipD", "flipE", "flipF", "flipH"][(k // 3) % 8]
+            conf = (["jcl", "flipA", "flipB", "flipC", "flipD", "flipE", "flipF", "flipH"] + FLIPI)[(k // 3 + seed) % (8 + len(FLIPI))]
         if isinstance(f, tuple):
             f, conf = f
         cl = code_lines(f)
@@ -854,7 +875,7 @@ def pick_params(prop, tier, seed):
             hot = [k - 1 for k in violations_by_line(f) if 1 <= k - 1 < len(txt) and line_is_relayoutable(txt[k - 1])]
             lo = rnd.choice(hot) if (hot and rnd.random() < 0.67) else rnd.choice(cl)
             lo = max(0, lo - rnd.randrange(2))
-            vconf = "default" if tier == "quick" else ["default", "flipB", "default", "jcl", "default", "flipA", "default", "flipH", "default", "flipE"][j % 10]
+            vconf = "default" if tier == "quick" else ["default", "flipB", "default", "jcl", "default", "flipA", "default", "flipH", "default", "flipE", "default", "flipI0", "default", "flipI4", "default", "flipJ0", "default", "flipJ1", "default", "flipI1"][j % 20]
             out.append({"prop": prop, "fixture": f, "window": [lo, lo + 1], "conf": vconf, "vary": 3, "vary_seed": rnd.randrange(10**6)})
     return out
 
@@ -891,7 +912,7 @@ def make_L(prop, title, extra_functions=()):
         functions = ("vsg.tokens", "vsg.vhdlFile", "vsg.rule_list", "vsg.rule", "vsg.rules", "vsg.token_map", "vsg.parser") + tuple(extra_functions)
         stubs = ()
         assumptions = ("the token structure of the input (which tokens, line breaks, comments) is that of the corpus fixture; only the letter case inside the window is symbolic",)
-        bounds = "corpus fixtures (the 957 tests/*/rule_*_test_input.vhd files copied to /verif/corpus) x a window of 1-2 lines whose letters outside comments each carry a symbolic case bit x configuration in {default, jcl, flipA..flipH}; plus layout-variation explorations (engine-forked alternatives at 3 positions of a window). quick: pinned pairs + 60 (30 for C06/C08/C09) fixtures and 12 layout windows chosen by VERIF_SEED mod 3, <=24 paths each; thorough: every fixture (480 for C06/C08/C09) and 200 layout windows, <=64 paths each"
+        bounds = "corpus fixtures (the 957 tests/*/rule_*_test_input.vhd files copied to /verif/corpus) x a window of 1-2 lines whose letters outside comments each carry a symbolic case bit x configuration in {default, jcl, flipA..flipH, option sweeps flipI0-4, flipJ0-1}; plus layout-variation explorations (engine-forked alternatives at 3 positions of a window: line break, comment + line break, inline delimited comment, deleted blank, nine end-of-line variants). quick: pinned pairs + 60 (30 for C06/C08/C09) fixtures (<=24 paths each) and 12 layout windows (<=160 paths each) chosen by VERIF_SEED mod 3; thorough: every fixture (480 for C06/C08/C09; <=64 paths each) and 200 layout windows (<=160 paths each), fixed selection"
         outside = "token structures not in the corpus; symbolic whitespace widths; comment text"
         min_conclusive_share = 0.5
         exception_props = (prop, "C19")
@@ -900,7 +921,7 @@ def make_L(prop, title, extra_functions=()):
             seed = int(os.environ.get("VERIF_SEED", "0") or 0)
             ps = pick_params(prop, tier, seed)
             for q in ps:
-                q["_limits"] = {"shard_paths": 24 if tier == "quick" else 64}
+                q["_limits"] = {"shard_paths": 160 if q.get("vary") else (24 if tier == "quick" else 64)}
             return ps
 
         def run(self, eng, p):
@@ -1121,7 +1142,7 @@ def vary_layout(eng, lines, window, points, seed):
                 n += 1
                 wordy = lambda t: bool(t) and (t[-1].isalnum() or t[-1] in "_\"'") and True
                 can_delete = not (wordy(toks[j - 1]) and (toks[j + 1][:1].isalnum() or toks[j + 1][:1] in "_\"'\\"))
-                c = eng.choose("gap%d" % n, 4 if can_delete else 3)
+                c = eng.choose("gap%d" % n, 5 if can_delete else 4)
                 if c == 0:
                     cur += tk
                 elif c == 1:
@@ -1130,13 +1151,19 @@ def vary_layout(eng, lines, window, points, seed):
                 elif c == 2:
                     out.append(cur + " -- relayout")
                     cur = "    "
+                elif c == 3:
+                    cur += " /* inline */ "  # a delimited comment between the two tokens, same line
                 else:
                     pass  # whitespace deleted: the neighbours stay separate tokens
             else:
                 cur += tk
         if (i, "eol", len(toks)) in chosen:
             n += 1
-            c = eng.choose("eol%d" % n, 7)
+            c = eng.choose("eol%d" % n, 9)
+            if c == 7:
+                cur += "-- abutting"  # no blank between code and comment
+            elif c == 8:
+                cur += " /* delimited at end of line */"
             if c == 6:
                 cur += "   "  # trailing blanks
             elif c == 1:
